@@ -558,18 +558,19 @@ theorem normFields_eqv {r : Rec} (hr : RecEqv r) {all : List Field} (hkw : ∀ f
       (fun _ => LeR.bind (ih (fun g hg => hfs g (by simp [hg]))) (fun _ => LeR.refl _))
 
 /-- `structMembers` of a reordered value: both fail, both are empty, or both are objects -/
-theorem bind_structMembers_eqv {α : Type} {j j' : Json} (he : Eqv j j') {f : List (String × Json) → R α}
-    (hf : ∀ ms ms', j = .obj ms → j' = .obj ms' → LeR (f ms) (f ms')) :
-    LeR (structMembers j >>= f) (structMembers j' >>= f) := by
+theorem bind_structMembers_eqv {α : Type} {j j' : Json} (he : Eqv j j') {f f' : List (String × Json) → R α}
+    (hobj : ∀ ms ms', j = .obj ms → j' = .obj ms' → LeR (f ms) (f' ms'))
+    (hnull : j = .null → j' = .null → LeR (f []) (f' [])) :
+    LeR (structMembers j >>= f) (structMembers j' >>= f') := by
   cases j with
   | obj ms =>
     obtain ⟨ms', rfl, _, _⟩ := eqv_obj_left he
-    exact hf ms ms' rfl rfl
-  | arr xs => obtain ⟨ys, rfl, _⟩ := eqv_arr_left he; exact LeR.refl _
-  | null => rw [eqv_scalar he ⟨by simp, by simp⟩]; exact LeR.refl _
-  | bool _ => rw [eqv_scalar he ⟨by simp, by simp⟩]; exact LeR.refl _
-  | num _ => rw [eqv_scalar he ⟨by simp, by simp⟩]; exact LeR.refl _
-  | str _ => rw [eqv_scalar he ⟨by simp, by simp⟩]; exact LeR.refl _
+    exact hobj ms ms' rfl rfl
+  | arr xs => obtain ⟨ys, rfl, _⟩ := eqv_arr_left he; intro y hy; cases hy
+  | null => rw [eqv_scalar he ⟨by simp, by simp⟩]; exact hnull rfl (eqv_scalar he ⟨by simp, by simp⟩)
+  | bool _ => rw [eqv_scalar he ⟨by simp, by simp⟩]; intro y hy; cases hy
+  | num _ => rw [eqv_scalar he ⟨by simp, by simp⟩]; intro y hy; cases hy
+  | str _ => rw [eqv_scalar he ⟨by simp, by simp⟩]; intro y hy; cases hy
 
 theorem self_names {fs : List Field} : ∀ f ∈ fs, f.jsonName ∈ fs.map (·.jsonName) :=
   fun f hf => List.mem_map.mpr ⟨f, hf, rfl⟩
@@ -578,8 +579,453 @@ theorem normStruct_eqv {r : Rec} (hr : RecEqv r) (n : String) {j j' : Json} (he 
     LeR (normStruct r (lookupStruct Gen.structs n) j) (normStruct r (lookupStruct Gen.structs n) j') := by
   unfold normStruct
   apply bind_structMembers_eqv he
-  intro ms ms' h1 h2
-  subst h1; subst h2
-  exact normFields_eqv hr (lookupStruct_keywords n) he ht ht' _ self_names
+  · intro ms ms' h1 h2
+    subst h1; subst h2
+    exact normFields_eqv hr (lookupStruct_keywords n) he ht ht' _ self_names
+  · intro _ _; exact LeR.refl _
+
+
+/-! ### the named union types -/
+
+/-- a codec that only looks at scalars and arrays of scalars behaves alike on both -/
+theorem scalar_or (v v' : Json) (he : Eqv v v') :
+    (∃ ms ms', v = .obj ms ∧ v' = .obj ms') ∨ (∃ xs ys, v = .arr xs ∧ v' = .arr ys ∧ EqvL xs ys) ∨
+      (v' = v ∧ (∀ ms, v ≠ .obj ms) ∧ (∀ xs, v ≠ .arr xs)) := by
+  cases v with
+  | obj ms => obtain ⟨ms', rfl, _, _⟩ := eqv_obj_left he; exact .inl ⟨ms, ms', rfl, rfl⟩
+  | arr xs => obtain ⟨ys, rfl, hel⟩ := eqv_arr_left he; exact .inr (.inl ⟨xs, ys, rfl, rfl, hel⟩)
+  | null => exact .inr (.inr ⟨eqv_scalar he ⟨by simp, by simp⟩, by simp, by simp⟩)
+  | bool _ => exact .inr (.inr ⟨eqv_scalar he ⟨by simp, by simp⟩, by simp, by simp⟩)
+  | num _ => exact .inr (.inr ⟨eqv_scalar he ⟨by simp, by simp⟩, by simp, by simp⟩)
+  | str _ => exact .inr (.inr ⟨eqv_scalar he ⟨by simp, by simp⟩, by simp, by simp⟩)
+
+theorem normStringOrArray_eqv {v v' : Json} (he : Eqv v v') : LeR (normStringOrArray v) (normStringOrArray v') := by
+  rcases scalar_or v v' he with ⟨ms, ms', rfl, rfl⟩ | ⟨xs, ys, rfl, rfl, hel⟩ | ⟨h, _, _⟩
+  · exact LeR.refl _
+  · simp only [normStringOrArray]
+    exact LeR.bind (mapR_eqv xs ys hel (fun a _ b hab _ => strElem_eqv hab)) (fun _ => LeR.refl _)
+  · rw [h]; exact LeR.refl _
+
+theorem normSchemaOrBool_eqv {r : Rec} (hr : RecEqv r) {v v' : Json} (he : Eqv v v') (ht : Tidy v) (ht' : Tidy v') :
+    LeR (normSchemaOrBool r v) (normSchemaOrBool r v') := by
+  rcases scalar_or v v' he with ⟨ms, ms', rfl, rfl⟩ | ⟨xs, ys, rfl, rfl, _⟩ | ⟨h, _, _⟩
+  · simpa [normSchemaOrBool] using hr _ _ _ he ht ht'
+  · exact LeR.refl _
+  · rw [h]; exact LeR.refl _
+
+theorem normSchemaOrArray_eqv {r : Rec} (hr : RecEqv r) {v v' : Json} (he : Eqv v v') (ht : Tidy v) (ht' : Tidy v') :
+    LeR (normSchemaOrArray r v) (normSchemaOrArray r v') := by
+  rcases scalar_or v v' he with ⟨ms, ms', rfl, rfl⟩ | ⟨xs, ys, rfl, rfl, hel⟩ | ⟨h, _, _⟩
+  · simpa [normSchemaOrArray] using hr _ _ _ he ht ht'
+  · simp only [normSchemaOrArray]
+    exact LeR.bind (mapR_arr_eqv hel ht ht' (fun a b hab ha hb => hr _ a b hab ha hb)) (fun _ => LeR.refl _)
+  · rw [h]; exact LeR.refl _
+
+theorem normSchemaOrStringArray_eqv {r : Rec} (hr : RecEqv r) {v v' : Json} (he : Eqv v v') (ht : Tidy v)
+    (ht' : Tidy v') : LeR (normSchemaOrStringArray r v) (normSchemaOrStringArray r v') := by
+  rcases scalar_or v v' he with ⟨ms, ms', rfl, rfl⟩ | ⟨xs, ys, rfl, rfl, hel⟩ | ⟨h, _, _⟩
+  · simpa [normSchemaOrStringArray] using hr _ _ _ he ht ht'
+  · simp only [normSchemaOrStringArray]
+    exact LeR.bind (mapR_eqv xs ys hel (fun a _ b hab _ => strElem_eqv hab)) (fun _ => LeR.refl _)
+  · rw [h]; exact LeR.refl _
+
+theorem normSchemaProperties_eqv {r : Rec} (hr : RecEqv r) {v v' : Json} (he : Eqv v v') (ht : Tidy v)
+    (ht' : Tidy v') : LeR (normSchemaProperties r v) (normSchemaProperties r v') := by
+  rcases scalar_or v v' he with ⟨ms, ms', rfl, rfl⟩ | ⟨xs, ys, rfl, rfl, _⟩ | ⟨h, _, _⟩
+  · simp only [normSchemaProperties]
+    exact LeR.bind (mapMembersR_obj_eqv he ht ht' (fun _ _ _ _ hev h1 h2 => hr _ _ _ hev h1 h2)) (fun _ => LeR.refl _)
+  · exact LeR.refl _
+  · rw [h]; exact LeR.refl _
+
+theorem normNamed_eqv {r : Rec} (hr : RecEqv r) (n : String) {v v' : Json} (he : Eqv v v') (ht : Tidy v)
+    (ht' : Tidy v') : LeR (normNamed r n v) (normNamed r n v') := by
+  unfold normNamed
+  split
+  · exact normStringOrArray_eqv he
+  · split
+    · exact normSchemaOrBool_eqv hr he ht ht'
+    · split
+      · exact normSchemaOrArray_eqv hr he ht ht'
+      · split
+        · exact normSchemaOrStringArray_eqv hr he ht ht'
+        · split
+          · exact normSchemaProperties_eqv hr he ht ht'
+          · exact LeR.refl _
+
+/-! ### kinds -/
+
+theorem schema_keywords : ∀ f ∈ tableOf "SchemaProps" ++ tableOf "SwaggerSchemaProps", f.jsonName ∈ keywordList := by
+  intro f hf
+  rcases List.mem_append.mp hf with h1 | h1
+  · exact lookupStruct_keywords "SchemaProps" f h1
+  · exact lookupStruct_keywords "SwaggerSchemaProps" f h1
+
+theorem normSchema_eqv {r : Rec} (hr : RecEqv r) {v v' : Json} (he : Eqv v v') (ht : Tidy v) (ht' : Tidy v') :
+    LeR (normSchema r v) (normSchema r v') := by
+  rcases scalar_or v v' he with ⟨ms, ms', rfl, rfl⟩ | ⟨xs, ys, rfl, rfl, _⟩ | ⟨h, _, _⟩
+  · simp only [normSchema]
+    refine LeR.bind (normFields_eqv hr schema_keywords he ht ht' _
+        (fun f hf => List.mem_map.mpr ⟨f, List.mem_append.mpr (.inl hf), rfl⟩)) (fun _ => ?_)
+    refine LeR.bind (normFields_eqv hr schema_keywords he ht ht' _
+        (fun f hf => List.mem_map.mpr ⟨f, List.mem_append.mpr (.inr hf), rfl⟩)) (fun _ => ?_)
+    exact LeR.bind (normAnyMembers_eqv he ht ht') (fun _ => LeR.refl _)
+  · exact LeR.refl _
+  · rw [h]; exact LeR.refl _
+
+theorem normExtensions_eqv {j j' : Json} (he : Eqv j j') (ht : Tidy j) (ht' : Tidy j') :
+    LeR (normExtensions j) (normExtensions j') := by
+  unfold normExtensions
+  exact LeR.bind (genericMap_eqv he ht ht') (fun _ => LeR.refl _)
+
+theorem normRefable_eqv {j j' : Json} (he : Eqv j j') (ht : Tidy j) (ht' : Tidy j') :
+    LeR (normRefable j) (normRefable j') := by
+  unfold normRefable
+  exact LeR.bind (genericMap_eqv he ht ht') (fun _ => LeR.refl _)
+
+theorem normResponse_eqv {r : Rec} (hr : RecEqv r) {j j' : Json} (he : Eqv j j') (ht : Tidy j) (ht' : Tidy j') :
+    LeR (normResponse r j) (normResponse r j') := by
+  have hkw : ∀ f ∈ tableOf "ResponseProps", f.jsonName ∈ keywordList := lookupStruct_keywords "ResponseProps"
+  rw [normResponse_unfold, normResponse_unfold]
+  apply bind_structMembers_eqv he
+  · intro ms ms' h1 h2
+    subst h1; subst h2
+    refine LeR.bind (normFields_eqv hr hkw he ht ht' _ self_names) (fun _ => ?_)
+    refine LeR.bind (normRefable_eqv he ht ht') (fun _ => ?_)
+    refine LeR.bind (normExtensions_eqv he ht ht') (fun _ => ?_)
+    split
+    · refine LeR.bind (normFields_eqv hr hkw he ht ht' _ (fun f hf => ?_)) (fun _ => LeR.refl _)
+      have : f.jsonName ∈ (setOmitEmpty "description" (tableOf "ResponseProps")).map (·.jsonName) :=
+        List.mem_map.mpr ⟨f, hf, rfl⟩
+      rw [setOmitEmpty_names] at this; exact this
+    · exact LeR.refl _
+  · intro h1 h2; subst h1; subst h2; exact LeR.refl _
+
+theorem normSecurityScheme_eqv {r : Rec} (hr : RecEqv r) {j j' : Json} (he : Eqv j j') (ht : Tidy j) (ht' : Tidy j') :
+    LeR (normSecurityScheme r j) (normSecurityScheme r j') := by
+  have hkw : ∀ f ∈ tableOf "SecuritySchemeProps", f.jsonName ∈ keywordList := lookupStruct_keywords "SecuritySchemeProps"
+  unfold normSecurityScheme
+  apply bind_structMembers_eqv he
+  · intro ms ms' h1 h2
+    subst h1; subst h2
+    refine LeR.bind (normFields_eqv hr hkw he ht ht' _ self_names) (fun _ => ?_)
+    refine LeR.bind (normExtensions_eqv he ht ht') (fun _ => ?_)
+    simp only
+    split
+    · exact LeR.refl _
+    · refine LeR.bind (normFields_eqv hr hkw he ht ht' _ (fun f hf => ?_)) (fun _ => LeR.refl _)
+      have : f.jsonName ∈ (setOmitEmpty "authorizationUrl" (tableOf "SecuritySchemeProps")).map (·.jsonName) :=
+        List.mem_map.mpr ⟨f, hf, rfl⟩
+      rw [setOmitEmpty_names] at this; exact this
+  · intro h1 h2; subst h1; subst h2; exact LeR.refl _
+
+theorem normOperationProps_eqv {r : Rec} (hr : RecEqv r) {j j' : Json} (he : Eqv j j') (ht : Tidy j) (ht' : Tidy j') :
+    LeR (normOperationProps r j) (normOperationProps r j') := by
+  have hkw : ∀ f ∈ tableOf "OperationProps", f.jsonName ∈ keywordList := lookupStruct_keywords "OperationProps"
+  unfold normOperationProps
+  apply bind_structMembers_eqv he
+  · intro ms ms' h1 h2
+    subst h1; subst h2
+    refine LeR.bind (normFields_eqv hr hkw he ht ht' _
+      (fun f hf => List.mem_map.mpr ⟨f, (List.mem_filter.mp hf).1, rfl⟩)) (fun _ => ?_)
+    refine LeR.bind ?_ (fun _ => LeR.refl _)
+    first
+      | exact LeR.refl _
+      | (refine fieldState_eqv hr hkw _ ?_ he ht ht'; decide)
+      | (split
+         · rename_i f hf
+           exact LeR.bind (fieldState_eqv hr hkw f (List.mem_map.mpr ⟨f, List.mem_of_find?_eq_some hf, rfl⟩) he ht ht')
+             (fun _ => LeR.refl _)
+         · exact LeR.refl _)
+  · intro h1 h2; subst h1; subst h2; exact LeR.refl _
+
+theorem normPart_eqv {r : Rec} (hr : RecEqv r) (p : String) {j j' : Json} (he : Eqv j j') (ht : Tidy j) (ht' : Tidy j') :
+    LeR (normPart r p j) (normPart r p j') := by
+  unfold normPart
+  split
+  · exact normExtensions_eqv he ht ht'
+  · split
+    · exact normRefable_eqv he ht ht'
+    · split
+      · exact normOperationProps_eqv hr he ht ht'
+      · exact normStruct_eqv hr p he ht ht'
+
+theorem normParts_eqv {r : Rec} (hr : RecEqv r) {j j' : Json} (he : Eqv j j') (ht : Tidy j) (ht' : Tidy j') :
+    ∀ ps, LeR (normParts r j ps) (normParts r j' ps) := by
+  intro ps
+  induction ps with
+  | nil => exact LeR.refl _
+  | cons p rest ih =>
+    simp only [normParts]
+    exact LeR.bind (normPart_eqv hr p he ht ht') (fun _ => LeR.bind ih (fun _ => LeR.refl _))
+
+theorem normConcatKind_eqv {r : Rec} (hr : RecEqv r) (ki : KindInfo) {j j' : Json} (he : Eqv j j') (ht : Tidy j)
+    (ht' : Tidy j') : LeR (normConcatKind r ki j) (normConcatKind r ki j') := by
+  unfold normConcatKind
+  exact LeR.bind (normParts_eqv hr he ht ht' _) (fun _ => LeR.bind (normParts_eqv hr he ht ht' _) (fun _ => LeR.refl _))
+
+
+/-! ### Go maps of reordered objects: same keys in the same (sorted) order, partner values -/
+
+/-- the value the reordered object holds under the name of `m` -/
+def partnerIn (ms' : List (String × Json)) (m : String × Json) : Json := (lookupKey ms' m.1).getD m.2
+
+theorem keysOf_map_partner (ms' l : List (String × Json)) :
+    keysOf (l.map (fun m => (m.1, partnerIn ms' m))) = keysOf l := by
+  simp [keysOf, List.map_map, Function.comp_def]
+
+theorem toGoMap_eqv {ms ms' : List (String × Json)} (he : Eqv (.obj ms) (.obj ms')) (ht : Tidy (.obj ms))
+    (ht' : Tidy (.obj ms')) :
+    toGoMap ms' = (toGoMap ms).map (fun m => (m.1, partnerIn ms' m)) ∧
+      ∀ m ∈ toGoMap ms, Eqv m.2 (partnerIn ms' m) ∧ Tidy m.2 ∧ Tidy (partnerIn ms' m) := by
+  simp only [Eqv] at he
+  have ⟨hn, hm⟩ := tidy_obj ht
+  have ⟨hn', hm'⟩ := tidy_obj ht'
+  have hmem := toGoMap_mem_iff ms hn
+  have hpartner : ∀ m ∈ ms, ∃ v', (m.1, v') ∈ ms' ∧ Eqv m.2 v' ∧ partnerIn ms' m = v' := by
+    intro m hmm
+    obtain ⟨v', hv', hev⟩ := eqvM_iff.mp he.1 m hmm
+    exact ⟨v', hv', hev, by simp [partnerIn, lookupKey_of_mem hn' hv']⟩
+  constructor
+  · apply toGoMap_eq_of_sorted_mem hn'
+    · unfold KeysSorted
+      have := keysOf_map_partner ms' (toGoMap ms)
+      simp only [keysOf] at this
+      rw [this]
+      exact toGoMap_sorted ms
+    · intro x
+      constructor
+      · intro hx
+        have hk := he.2 x.1 (mem_keysOf hx)
+        simp only [keysOf, List.mem_map] at hk
+        obtain ⟨m, hmm, hkey⟩ := hk
+        obtain ⟨v', hv', _, hp⟩ := hpartner m hmm
+        have : v' = x.2 := by
+          have h1 := lookupKey_of_mem hn' hv'
+          have h2 := lookupKey_of_mem hn' (show (x.1, x.2) ∈ ms' from hx)
+          rw [hkey, h2] at h1
+          simpa using h1.symm
+        refine List.mem_map.mpr ⟨m, (hmem m).mpr hmm, ?_⟩
+        rw [hp, this, hkey]
+      · intro hx
+        obtain ⟨m, hmm, rfl⟩ := List.mem_map.mp hx
+        obtain ⟨v', hv', _, hp⟩ := hpartner m ((hmem m).mp hmm)
+        simp only [hp]; exact hv'
+  · intro m hmm
+    have hmm' := (hmem m).mp hmm
+    obtain ⟨v', hv', hev, hp⟩ := hpartner m hmm'
+    rw [hp]
+    exact ⟨hev, (hm m hmm').2, (hm' _ hv').2⟩
+
+theorem lookupKey_map_partner (ms' : List (String × Json)) (l : List (String × Json)) (k : String) :
+    lookupKey (l.map (fun m => (m.1, partnerIn ms' m))) k = (l.find? (·.1 == k)).map (partnerIn ms') := by
+  simp [lookupKey, List.find?_map, Option.map_map, Function.comp_def]
+
+theorem statusEntries_partner {r : Rec} (hr : RecEqv r) (ms' : List (String × Json)) : ∀ (l : List (String × Json)),
+    (∀ m ∈ l, Eqv m.2 (partnerIn ms' m) ∧ Tidy m.2 ∧ Tidy (partnerIn ms' m)) →
+    LeR (statusEntries r l) (statusEntries r (l.map (fun m => (m.1, partnerIn ms' m)))) := by
+  intro l
+  induction l with
+  | nil => intro _; exact LeR.refl _
+  | cons a rest ih =>
+    obtain ⟨k, v⟩ := a
+    intro h
+    have hrest := ih (fun m hm => h m (by simp [hm]))
+    have ⟨h1, h2, h3⟩ := h (k, v) (by simp)
+    simp only [List.map_cons, statusEntries]
+    split
+    · exact hrest
+    · exact LeR.bind (hr _ _ _ h1 h2 h3) (fun _ => LeR.bind hrest (fun _ => LeR.refl _))
+
+theorem normResponsesProps_eqv {r : Rec} (hr : RecEqv r) {j j' : Json} (he : Eqv j j') (ht : Tidy j) (ht' : Tidy j') :
+    LeR (normResponsesProps r j) (normResponsesProps r j') := by
+  rcases scalar_or j j' he with ⟨ms, ms', rfl, rfl⟩ | ⟨xs, ys, rfl, rfl, _⟩ | ⟨h, _, _⟩
+  · have ⟨e1, e2⟩ := toGoMap_eqv he ht ht'
+    simp only [normResponsesProps, rawMap]
+    rw [e1]
+    refine LeR.bind ?_ (fun _ => LeR.bind (statusEntries_partner hr ms' _ e2) (fun _ => LeR.refl _))
+    -- the `default` member
+    unfold defaultPart
+    rw [lookupKey_map_partner]
+    cases hf : (toGoMap ms).find? (·.1 == "default") with
+    | none => simp [lookupKey, hf]; exact LeR.refl _
+    | some m =>
+      have hmm := List.mem_of_find?_eq_some hf
+      have ⟨h1, h2, h3⟩ := e2 m hmm
+      simp only [lookupKey, hf, Option.map_some]
+      exact LeR.bind (hr _ _ _ h1 h2 h3) (fun _ => LeR.refl _)
+  · exact LeR.refl _
+  · rw [h]; exact LeR.refl _
+
+theorem normResponses_eqv {r : Rec} (hr : RecEqv r) {j j' : Json} (he : Eqv j j') (ht : Tidy j) (ht' : Tidy j') :
+    LeR (normResponses r j) (normResponses r j') := by
+  unfold normResponses
+  exact LeR.bind (normResponsesProps_eqv hr he ht ht') (fun _ => LeR.bind (normExtensions_eqv he ht ht') (fun _ => LeR.refl _))
+
+theorem normPaths_eqv {r : Rec} (hr : RecEqv r) {j j' : Json} (he : Eqv j j') (ht : Tidy j) (ht' : Tidy j') :
+    LeR (normPaths r j) (normPaths r j') := by
+  rcases scalar_or j j' he with ⟨ms, ms', rfl, rfl⟩ | ⟨xs, ys, rfl, rfl, _⟩ | ⟨h, _, _⟩
+  · have he0 := he
+    simp only [Eqv] at he
+    have ⟨hn, hm⟩ := tidy_obj ht
+    have ⟨hn', hm'⟩ := tidy_obj ht'
+    have hmem := toGoMap_mem_iff ms hn
+    have hmem' := toGoMap_mem_iff ms' hn'
+    -- the filtered Go maps of both objects, for any predicate on names
+    have hfilt : ∀ (p : String → Bool) (f : Json → R Json),
+        (∀ m ∈ ms, ∀ v', (m.1, v') ∈ ms' → Eqv m.2 v' → LeR (f m.2) (f v')) →
+        LeR (mapMembersR f ((rawMap ms).filter (fun m => p m.1))) (mapMembersR f ((rawMap ms').filter (fun m => p m.1))) := by
+      intro p f hf
+      apply mapMembersR_eqv
+      · exact keysOf_filter_nodup _ (keysSorted_nodup (toGoMap_sorted ms))
+      · exact keysOf_filter_nodup _ (keysSorted_nodup (toGoMap_sorted ms'))
+      · intro k hk
+        simp only [keysOf, List.mem_map, List.mem_filter, rawMap] at hk ⊢
+        obtain ⟨m', ⟨hm1, hm2⟩, rfl⟩ := hk
+        have := he.2 m'.1 (mem_keysOf ((hmem' m').mp hm1))
+        simp only [keysOf, List.mem_map] at this
+        obtain ⟨m, hmm, hkey⟩ := this
+        exact ⟨m, ⟨(hmem m).mpr hmm, by rw [hkey]; exact hm2⟩, hkey⟩
+      · intro m hmf
+        simp only [List.mem_filter, rawMap] at hmf
+        have hmm := (hmem m).mp hmf.1
+        obtain ⟨v', hv', hev⟩ := eqvM_iff.mp he.1 m hmm
+        refine ⟨v', ?_, hf m hmm v' hv' hev⟩
+        simp only [List.mem_filter, rawMap]
+        exact ⟨(hmem' _).mpr hv', hmf.2⟩
+    simp only [normPaths]
+    refine LeR.bind (hfilt isExtKey normAny (fun m hmm v' hv' hev => normAny_eqv _ _ hev (hm m hmm).2 (hm' _ hv').2)) (fun _ => ?_)
+    exact LeR.bind (hfilt startsWithSlash (r (.kind "pathItem")) (fun m hmm v' hv' hev => hr _ _ _ hev (hm m hmm).2 (hm' _ hv').2))
+      (fun _ => LeR.refl _)
+  · exact LeR.refl _
+  · rw [h]; exact LeR.refl _
+
+/-! ### the dispatcher and the recursion -/
+
+theorem normKind_eqv {r : Rec} (hr : RecEqv r) (k : String) {j j' : Json} (he : Eqv j j') (ht : Tidy j) (ht' : Tidy j') :
+    LeR (normKind r k j) (normKind r k j') := by
+  unfold normKind
+  split
+  · exact normSchema_eqv hr he ht ht'
+  · split
+    · exact normResponse_eqv hr he ht ht'
+    · split
+      · exact normResponses_eqv hr he ht ht'
+      · split
+        · exact normPaths_eqv hr he ht ht'
+        · split
+          · exact normSecurityScheme_eqv hr he ht ht'
+          · split
+            · exact LeR.refl _
+            · split
+              · exact LeR.bind (normStruct_eqv hr _ he ht ht') (fun _ => LeR.refl _)
+              · exact normConcatKind_eqv hr _ he ht ht'
+
+theorem normF_eqv : ∀ n, RecEqv (normF n) := by
+  intro n
+  induction n with
+  | zero => intro t v v' _ _ _ x h; simp [normF] at h
+  | succ n ih =>
+    intro t v v' he ht ht'
+    cases t with
+    | kind k => simpa [normF] using normKind_eqv ih k he ht ht'
+    | named nm => simpa [normF] using normNamed_eqv ih nm he ht ht'
+
+
+/-! ### `Tidy` from the two facts already known about codec outputs -/
+
+mutual
+  theorem tidy_of_clean_nd : ∀ (j : Json), Clean j → ND j → Tidy j
+    | .obj ms, hc, hn => by
+        simp only [Clean] at hc
+        simp only [ND] at hn
+        simp only [Tidy]
+        exact ⟨hn.1, tidyM_of_clean_nd ms hc hn.2⟩
+    | .arr xs, hc, hn => by
+        simp only [Clean] at hc
+        simp only [ND] at hn
+        simp only [Tidy]
+        exact tidyL_of_clean_nd xs hc hn
+    | .null, _, _ => by simp [Tidy]
+    | .bool _, _, _ => by simp [Tidy]
+    | .num _, _, _ => by simp [Tidy]
+    | .str _, _, _ => by simp [Tidy]
+  theorem tidyL_of_clean_nd : ∀ (xs : List Json), CleanL xs → NDL xs → TidyL xs
+    | [], _, _ => by simp [TidyL]
+    | x :: xs, hc, hn => by
+        simp only [CleanL] at hc
+        simp only [NDL] at hn
+        exact ⟨tidy_of_clean_nd x hc.1 hn.1, tidyL_of_clean_nd xs hc.2 hn.2⟩
+  theorem tidyM_of_clean_nd : ∀ (ms : List (String × Json)), CleanM ms → NDM ms → TidyM ms
+    | [], _, _ => by simp [TidyM]
+    | (k, v) :: rest, hc, hn => by
+        simp only [CleanM] at hc
+        simp only [NDM] at hn
+        exact ⟨hc.1, tidy_of_clean_nd v hc.2.2.2.1 hn.1, tidyM_of_clean_nd rest hc.2.2.2.2 hn.2⟩
+end
+
+
+theorem eqv_obj_intro {ms ms' : List (String × Json)} (h1 : ∀ m ∈ ms, ∃ v', (m.1, v') ∈ ms' ∧ Eqv m.2 v')
+    (h2 : ∀ k ∈ keysOf ms', k ∈ keysOf ms) : Eqv (.obj ms) (.obj ms') := by
+  simp only [Eqv]; exact ⟨eqvM_iff.mpr h1, h2⟩
+
+theorem eqv_num (n : Int) : Eqv (.num n) (.num n) := by simp only [Eqv]
+theorem eqv_str (s : String) : Eqv (.str s) (.str s) := by simp only [Eqv]
+theorem eqv_null : Eqv .null .null := by simp only [Eqv]
+theorem eqv_arr_swap_false : ¬ Eqv (.arr [.num 1, .num 2]) (.arr [.num 2, .num 1]) := by
+  simp only [Eqv, EqvL]
+  intro h
+  exact absurd h.1 (by decide)
+
+
+/-! ### an executable test for `Tidy` (run by the driver on generated documents) -/
+
+def nodupB : List String → Bool
+  | [] => true
+  | k :: ks => !ks.contains k && nodupB ks
+
+theorem nodupB_sound : ∀ (ks : List String), nodupB ks = true → ks.Nodup
+  | [], _ => List.nodup_nil
+  | k :: ks, h => by
+      simp only [nodupB, Bool.and_eq_true, Bool.not_eq_true'] at h
+      refine List.nodup_cons.mpr ⟨?_, nodupB_sound ks h.2⟩
+      intro hm
+      have : ks.contains k = true := by simpa using hm
+      rw [h.1] at this; cases this
+
+mutual
+  def tidyB : Json → Bool
+    | .arr xs => tidyLB xs
+    | .obj ms => nodupB (keysOf ms) && tidyMB ms
+    | _ => true
+  def tidyLB : List Json → Bool
+    | [] => true
+    | x :: xs => tidyB x && tidyLB xs
+  def tidyMB : List (String × Json) → Bool
+    | [] => true
+    | (k, v) :: rest => nameOKB k && tidyB v && tidyMB rest
+end
+
+mutual
+  theorem tidyB_sound : ∀ (j : Json), tidyB j = true → Tidy j
+    | .obj ms, h => by
+        simp only [tidyB, Bool.and_eq_true] at h
+        simp only [Tidy]
+        exact ⟨nodupB_sound _ h.1, tidyMB_sound ms h.2⟩
+    | .arr xs, h => by simp only [Tidy]; exact tidyLB_sound xs (by simpa [tidyB] using h)
+    | .null, _ => by simp [Tidy]
+    | .bool _, _ => by simp [Tidy]
+    | .num _, _ => by simp [Tidy]
+    | .str _, _ => by simp [Tidy]
+  theorem tidyLB_sound : ∀ (xs : List Json), tidyLB xs = true → TidyL xs
+    | [], _ => by simp [TidyL]
+    | x :: xs, h => by
+        simp only [tidyLB, Bool.and_eq_true] at h
+        exact ⟨tidyB_sound x h.1, tidyLB_sound xs h.2⟩
+  theorem tidyMB_sound : ∀ (ms : List (String × Json)), tidyMB ms = true → TidyM ms
+    | [], _ => by simp [TidyM]
+    | (k, v) :: rest, h => by
+        simp only [tidyMB, Bool.and_eq_true] at h
+        exact ⟨nameOKB_sound h.1.1, tidyB_sound v h.1.2, tidyMB_sound rest h.2⟩
+end
 
 end SpecModel.Codec
